@@ -88,9 +88,29 @@ def _fam_cfg(ctx, tier_cfg, fam):
     return p
 
 
+def _tok8_cfg(ctx, tier_cfg):
+    """the token-conversion family once more in units of 1/8 ms (sub-millisecond frame shifts)"""
+    import re
+
+    p = _fam_cfg(ctx, tier_cfg, "tok")
+    with open(p) as f:
+        txt = f.read()
+    txt2 = re.sub(r"TokTimes <- \w+", "TokTimes <- TokTimesSubMs", txt)
+    txt2 = re.sub(r"Shifts <- \w+", "Shifts <- ShiftsSubMs", txt2)
+    if txt2 == txt:
+        raise MachineryError("unexpected cfg layout in " + tier_cfg)
+    p8 = p.replace("tok_", "tok8_")
+    with open(p8, "w") as f:
+        f.write(txt2)
+    return p8
+
+
 def transcripts_jobs(ctx, fams):
     cfg = "Transcripts_quick.cfg" if ctx.quick else "Transcripts_thorough.cfg"
-    return [("Transcripts/" + fam, TR_MOD, _fam_cfg(ctx, cfg, fam), dict(workers=4, timeout=1500)) for fam in fams]
+    jobs = [("Transcripts/" + fam, TR_MOD, _fam_cfg(ctx, cfg, fam), dict(workers=4, timeout=1500)) for fam in fams]
+    if "tok" in fams:
+        jobs.append(("Transcripts/tok8", TR_MOD, _tok8_cfg(ctx, cfg), dict(workers=4, timeout=1500)))
+    return jobs
 
 
 def pool_jobs(ctx, with_design=True):
@@ -113,9 +133,15 @@ def run_all(ctx, fams, pool=True, extra_jobs=()):
         if name.startswith("Transcripts/"):
             fam = name.split("/")[1]
             tlc.require_covered(r, ["Init", "Prepare"] + (TRN_ACTIONS if fam == "trn" else []), name)
-            recs[fam] = sorted(r.records, key=lambda x: repr(x))
-            if not recs[fam]:
+            these = sorted(r.records, key=lambda x: repr(x))
+            if not these:
                 raise MachineryError("no cases exported for " + name)
+            if fam == "tok8":
+                for x in these:
+                    x["upm"] = 8  # units per millisecond
+                fam = "tok"
+            recs.setdefault(fam, [])
+            recs[fam] += these
         elif name.startswith("WorkerPool/"):
             tlc.require_covered(r, WP_ACTIONS, name)
     schedules = None
